@@ -8,6 +8,7 @@ package main
 import (
 	"fmt"
 	"sync/atomic"
+	"time"
 
 	"verif/mc"
 
@@ -286,7 +287,7 @@ type qlong struct {
 }
 
 func checkQLong(l qlong) *mc.Failure {
-	return mc.GuardT("queue-long", l, func() *mc.Failure {
+	return mc.GuardTL("queue-long", l, 20*time.Minute, func() *mc.Failure {
 		q := queue.NewSize[int](l.Cap)
 		var ref []int
 		next, step := 1, 0
@@ -439,7 +440,7 @@ func main() {
 			return makeBFS(&cf, &local, mc.HooksEnabled, 0).Replay(c)
 		},
 	}, mc.Harness{
-		Name: "queue-long",
+		Name: "queue-long", HangLimit: 20 * time.Minute,
 		Explore: func(r *mc.Run) {
 			var cases []qlong
 			var caps []int
